@@ -69,7 +69,9 @@ const VM_TABLE: &[(&str, Cover)] = &[
     ("vm.size size l", Cover::Exact(&["l.size", "m.size"])),
     ("koto.copy", Cover::Exact(&["l.copy", "m.copy"])),
     ("koto.deep_copy", Cover::Exact(&["l.deep_copy", "m.deep_copy"])),
-    ("vm.list.iteration (for, iter(), consumers, unpacking, match)", Cover::Compound(&["list.iter.to_tuple", "list.for", "list.iter.consumers", "list.unpack", "list.match"])),
+    ("vm.list.temp_index (unpacking / match patterns: `(..., last)`, `|(others..., last)|`, `(first, ...)`)", Cover::Exact(&["l.match.last", "l.arg.last", "l.match.first"])),
+    ("vm.list.slice_from / slice_to (patterns `(first, rest...)`, `(others..., last)`)", Cover::Exact(&["l.match.rest", "l.match.others"])),
+    ("vm.list.iteration (for, iter(), consumers, whole unpacking: several instructions)", Cover::Compound(&["list.iter.to_tuple", "list.for", "list.iter.consumers", "list.unpack", "list.match"])),
     ("vm.map.access m.k", Cover::Exact(&["m.access"])),
     ("vm.map.access_assign m.k = v", Cover::Exact(&["m.put"])),
     ("vm.map.index m[i]", Cover::Exact(&["m.index"])),
@@ -194,6 +196,11 @@ fn make_form(tag: &str, rng: &mut Rng, len: usize, vals: &[i64], t: i64) -> Op {
         "l.size" => Op::Size,
         "l.copy" => Op::SnapVia("copy"),
         "l.deep_copy" => Op::SnapVia("deep_copy"),
+        "l.match.last" => Op::LastVia("match"),
+        "l.arg.last" => Op::LastVia("arg"),
+        "l.match.first" => Op::FirstVia("match"),
+        "l.match.rest" => Op::TailVia,
+        "l.match.others" => Op::InitVia,
         "m.clear" => Op::MClear,
         "m.contains_key" => Op::Has(some_val),
         "m.extend" => Op::MExtend(vec![(some_val, new), (vals.first().copied().unwrap_or(1) + 500, new)]),
@@ -269,13 +276,14 @@ fn gen_pair(rng: &mut Rng, tag: &'static str, big: bool, n_threads: usize, round
             for j in 0..n_ops {
                 let v = 600_000 + t as i64 * 1000 + j as i64;
                 let idx = if rng.chance(1, 2) { rng.below(3) } else { n / 2 };
-                p.push(match rng.weighted(&[6, 5, 3, 3, 3, 1]) {
+                p.push(match rng.weighted(&[6, 5, 3, 3, 3, 1, 2]) {
                     0 => Op::Push(v),
                     1 => Op::Pop,
                     2 => Op::Insert(idx, v),
                     3 => Op::Remove(idx),
                     4 => Op::Set(idx, v),
-                    _ => Op::Clear,
+                    5 => Op::Clear,
+                    _ => Op::Resize(if rng.chance(1, 2) { n + 1 } else { n.saturating_sub(1) }, v),
                 });
             }
             progs.push(p);
